@@ -135,12 +135,27 @@ impl Scenario for Session {
             }
             e
         };
+        let mut sut_items: Vec<Ent> = (0..rng.urange(0, max_items)).map(|_| item(rng)).collect();
+        let mut peer_items: Vec<Ent> = (0..rng.urange(0, max_items)).map(|_| item(rng)).collect();
+        // one run in six: a side holds an entry written while its clock was an hour beyond the
+        // future bound; the other side refuses it, the session still succeeds and counts it
+        if rng.chance(1, 6) {
+            let e = Ent { d: 0, a: rng.below(2) as u8, k: vec![0xFE, *rng.pick(&crate::world::ALPHABET)], ts: FAR_FUTURE + rng.below(3), c: 1 };
+            match rng.below(3) {
+                0 => sut_items.push(e),
+                1 => peer_items.push(e),
+                _ => {
+                    sut_items.push(e.clone());
+                    peer_items.push(Ent { a: 1 - e.a, ..e });
+                }
+            }
+        }
         SessionPlan {
             seed: rng.next_u64(),
             sut_is_alice,
             peer,
-            sut_items: (0..rng.urange(0, max_items)).map(|_| item(rng)).collect(),
-            peer_items: (0..rng.urange(0, max_items)).map(|_| item(rng)).collect(),
+            sut_items,
+            peer_items,
             chunk: *rng.pick(&[1usize, 3, 7, 64, 4096]),
             cut_to_sut: cut(rng),
             cut_from_sut: cut(rng),
@@ -277,6 +292,9 @@ enum SutResult {
     Bob(Result<iroh_docs::NamespaceId, AcceptError>, SyncOutcome),
 }
 
+/// node clocks stand at 1 s; the future bound is 10 min; this is an hour beyond it
+const FAR_FUTURE: u64 = 1_000_000 + iroh_docs::MAX_TIMESTAMP_FUTURE_SHIFT + 3_600_000_000;
+
 async fn mk_node(items: &[Ent], known: bool, sync: bool) -> Res<(Node, Option<RefDoc>)> {
     let w = world();
     let mut sut = Sut::new(Backend::Mem)?;
@@ -286,7 +304,18 @@ async fn mk_node(items: &[Ent], known: bool, sync: bool) -> Res<(Node, Option<Re
         for e in items {
             let mut e = e.clone();
             e.d = 0;
-            offer(sut.store(), &e, Path::Remote).await?;
+            if e.ts >= FAR_FUTURE {
+                // written while this node's clock was ahead
+                let mut r = sut.store().open_replica(&w.doc_id(0)).map_err(|e| harness(format!("open: {e}")))?;
+                iroh_docs::verif::set_wall_clock_micros(Some(e.ts));
+                let res = r.insert_remote_entry(e.signed(), crate::ops::PEER, iroh_docs::ContentStatus::Missing).await;
+                iroh_docs::verif::set_wall_clock_micros(None);
+                drop(r);
+                sut.store().close_replica(w.doc_id(0));
+                res.map_err(|e| harness(format!("prefill with a far-future entry: {e:#}")))?;
+            } else {
+                offer(sut.store(), &e, Path::Remote).await?;
+            }
         }
         before = Some(dump(sut.store(), 0).map_err(harness)?.doc);
     }
@@ -655,6 +684,9 @@ async fn run(plan: &SessionPlan, cx: &mut Cx) -> Res {
                 return Err(Violation::new("counts/mismatch", format!("both sides succeeded but side under test sent={} recv={}, peer sent={} recv={}", so.num_sent, so.num_recv, po.num_sent, po.num_recv)));
             }
             cx.probe("mutual_success");
+            if plan.sut_items.iter().chain(plan.peer_items.iter()).any(|e| e.ts >= FAR_FUTURE) {
+                cx.probe("mutual_success_with_an_entry_beyond_the_future_bound");
+            }
             if so.num_sent + so.num_recv >= 8 {
                 cx.probe("mutual_success_moving_8_or_more_entries");
             }
